@@ -426,7 +426,20 @@ func rulesC01(c *Ctx) {
 				c.Check(okErr, "readIncoming:drain-error", l, rc, "each drained call completes with the same error value that is stored in readErr")
 			}
 		}
-		c.Check(len(l.FieldWrites(l.Body, reading, false)) == 1, "readIncoming:reading=false", l, nil, "the closure clears the reading flag (lets updateInFlight close done)")
+		okReading := len(l.FieldWrites(l.Body, reading, false)) == 1
+		if !okReading {
+			// ... or a later locked closure of the reader does, on every path behind the drain
+			for _, s2 := range c.uifSites(ri) {
+				if s2.In != ri || len(s2.Lit.FieldWrites(s2.Lit.Body, reading, false)) != 1 {
+					continue
+				}
+				sv := g.VertexOf(s2.Call)
+				if okAfter, _ := g.MustPass(dv, g.Exits, func(v int) bool { return v == sv }); okAfter {
+					okReading = true
+				}
+			}
+		}
+		c.Check(okReading, "readIncoming:reading=false", l, nil, "the drain closure (or a locked closure that every path behind it passes) clears the reading flag, which lets updateInFlight close done")
 	})
 
 	c.Rule("R-C01-5", "a response is matched to its call by id only; unknown ids are ignored; the entry is removed before the call completes", func() { responseArmRule(c) })
